@@ -203,3 +203,38 @@ def run(ctx):
                 ctx.ob("C20.R3", site, "negative value = result - (1 << shift)", True, construct="ext-idiom")
             else:
                 ctx.undecided("C20.R3", site, "sign extension idiom not recognised: %s" % txt)
+    _integer_only(ctx)
+
+
+FLOAT_CALLS = {"float", "round", "pow"}
+
+
+def float_operations(tree):
+    """places where a value passes through floating point: true division, float()/round()/pow(), any math.* call,
+    float literals, ** with a negative or fractional exponent"""
+    out = []
+    for n in ast.walk(tree):
+        if isinstance(n, ast.BinOp) and isinstance(n.op, ast.Div):
+            out.append((n, "true division `%s`" % norm(n)[:50]))
+        elif isinstance(n, ast.AugAssign) and isinstance(n.op, ast.Div):
+            out.append((n, "true division `%s`" % norm(n)[:50]))
+        elif isinstance(n, ast.Call) and isinstance(n.func, ast.Attribute) and isinstance(n.func.value, ast.Name) and n.func.value.id in ("math", "cmath", "numpy", "np"):
+            out.append((n, "`%s`" % norm(n)[:50]))
+        elif isinstance(n, ast.Call) and isinstance(n.func, ast.Name) and n.func.id in FLOAT_CALLS:
+            out.append((n, "`%s`" % norm(n)[:50]))
+        elif isinstance(n, ast.Constant) and isinstance(n.value, float):
+            out.append((n, "float literal %r" % n.value))
+        elif isinstance(n, ast.ImportFrom) and n.module in ("math", "cmath"):
+            out.append((n, "`%s`" % norm(n)[:50]))
+    return out
+
+
+def _integer_only(ctx):
+    """R4: LEB128 carries integers of any size (u64 immediates, DWARF constants); a double has 53 bits of mantissa, so
+    a size or a digit computed through floating point is wrong for some large value even though every small one works."""
+    ctx.rule("C20.R4", "the LEB128 codec computes with integers only: no true division, math.* function, float()/round() or float literal anywhere in ppci/utils/leb128.py (a group count taken from a logarithm is off by one just below large powers of 128)", floor=1)
+    ctl = ast.parse("import math\ndef size(v):\n    return int(math.log(v, 128)) + 1\ndef half(v):\n    return v / 2\n")
+    ctx.need(len(float_operations(ctl)) == 2, "C20.R4 positive control lost")
+    mod = ctx.project.module(F)
+    hits = float_operations(mod.tree)
+    ctx.ob("C20.R4", F, "no floating-point operation in the codec", not hits, construct="integer-only", node=hits[0][0] if hits else None, detail="; ".join("line %d: %s" % (n.lineno, t) for n, t in hits[:4]))
